@@ -138,6 +138,15 @@ theorem simplifyRaw_val (ρ : Env) (a : Arg) (c : Bool) (a' : Arg) (v : Int)
         exact neutralizeRaw_val ρ hn hsw
       | err e => simp [hn] at he
       | panic => simp [hn] at he
+    · rename_i u
+      cases hn : neutralizeRaw (.neg (.neg u)) with
+      | ok pr =>
+        obtain ⟨c1, y⟩ := pr
+        simp only [hn, Res.ok.injEq, Prod.mk.injEq] at he
+        obtain ⟨_, rfl⟩ := he
+        exact neutralizeRaw_val ρ hn hv
+      | err e => simp [hn] at he
+      | panic => simp [hn] at he
     · split at he
       · simp at he
       · simp only [Res.ok.injEq, Prod.mk.injEq] at he
